@@ -348,15 +348,9 @@ impl KSpec {
     pub fn finding_tag_in(&self, doms: &[Vec<i32>]) -> &'static str {
         let hull = |v: &VSpec| -> (i64, i64) { let w = v.values(doms); (w.iter().cloned().min().unwrap_or(0), w.iter().cloned().max().unwrap_or(0)) };
         match self {
-            // a float bound (quotient) pushed through Next/Prev is not shifted
-            // divisor range containing 0: the propagator returns without checking anything
-            KSpec::Div(_, y, _) | KSpec::Mod(_, y, _) if { let h = hull(y); h.0 <= 0 && h.1 >= 0 } => "zero-in-divisor-range",
-            KSpec::Mul(x, y, _) if x.has_step() || y.has_step() => "next-prev-float-bound",
-            KSpec::Div(_, y, _) if y.has_step() => "next-prev-float-bound",
             KSpec::Mod(x, y, _) if hull(x).0 < 0 || hull(y).0 < 0 => "modulo-negative",
             KSpec::Mod(x, y, _) if { let (hx, hy) = (hull(x), hull(y)); hy.0 != hy.1 && hy.1 - hy.0 <= 10 && hx.1 - hx.0 > 10 } => "modulo-dividend-boundary-sampling",
             KSpec::Mod(_, y, _) if { let hy = hull(y); hy.1 - hy.0 > 10 } => "modulo-divisor-boundary-sampling",
-            KSpec::AllEq(xs) if xs.is_empty() => "allequal-empty-fails",
             KSpec::Neq(..) => "neq-noop",
             KSpec::LinEq(cs, ..) | KSpec::LinLe(cs, ..) | KSpec::LinNe(cs, ..) if cs.iter().all(|c| *c == 0) => "lin-all-zero-coefficients",
             KSpec::LinEqR(cs, ..) | KSpec::LinLeR(cs, ..) | KSpec::LinNeR(cs, ..) if cs.iter().all(|c| *c == 0) => "lin-all-zero-coefficients",
